@@ -484,6 +484,6 @@ def stages(tier):
         Hyp('marker-edits', _edit_cases, 5000, 300000),
         Hyp('arbitrary-lists', _arb_cases, 6000, 300000),
         Machine('edit-histories', _machine, (600, 12), (20000, 30)),
-        Fuzz('coverage-guided-marker-edits', 0, 1200000, structured=_edit_cases, max_len=2048),
-        Fuzz('coverage-guided-arbitrary-lists', 0, 1200000, structured=_arb_cases, max_len=2048),
+        Fuzz('coverage-guided-marker-edits', 0, 600000, structured=_edit_cases, max_len=2048),
+        Fuzz('coverage-guided-arbitrary-lists', 0, 600000, structured=_arb_cases, max_len=2048),
     ]
